@@ -123,37 +123,37 @@ def run(ck):
     cd = prog.func(U, "create_dict")
     # ------------------------------------------------------------------ R1 default dictionary
     with ck.guard("C04.R1", "create_dict", cd.site()):
-        p = single(paths_of(prog, lambda it: it.call_function(VFunc(cd), [], {}, None)), "create_dict")
-        d = p.value
-        keys = list(d.obj.items.keys()) if isinstance(d, VDict) and d.obj.items is not None else None
-        ck.check(keys is not None and set(keys) == {"X", "Y", "Z"}, "C04.R1", "default keys X, Y, Z", cd.site(), "default dictionary has keys %s" % keys)
-        mats = {}
-        for k in ("X", "Y", "Z"):
-            v = d.obj.items.get(k) if keys else None
-            M = matrix_of(v.term) if isinstance(v, VTens) and v.term is not None else None
-            ck.check(True if M is not None else None, "C04.R1", "%s: literal 2x2 complex matrix" % k, cd.site(), "the %s entry is not a literal (2,2,2) tensor over Q(sqrt 2): %r" % (k, getattr(v, "term", None)))
-            ck.check(isinstance(v, VTens) and v.shape == (2, 2, 2), "C04.R1", "%s: shape (2,2,2)" % k, cd.site(), "the %s entry has shape %s" % (k, getattr(v, "shape", None)))
-            mats[k] = M
-        if mats.get("Z") is not None:
-            ck.check(mats["Z"] == I2, "C04.R1", "Z is the identity", cd.site(), "the Z unitary is %s, expected the identity" % (mats["Z"],))
-        for k, S in (("X", SX), ("Y", SY)):
-            M = mats.get(k)
-            if M is None:
-                continue
-            try:
-                uni = mm(M, dag(M))
-                ck.check(uni == I2, "C04.R1", "%s is unitary" % k, cd.site(), "%s %s^dagger = %s, expected the identity" % (k, k, uni))
-                rot = mm(mm(M, S), dag(M))
-                if rot == DIAG:
-                    ck.ok("C04.R1", "%s: rows are the conjugated +1 / -1 eigenvectors of sigma_%s" % (k, k.lower()), cd.site(), U_sigma_Udag=str(rot))
-                elif rot == [[Q2(-1), ZERO], [ZERO, ONE]]:
-                    ck.violation("C04.R1", "%s: rows are the conjugated +1 / -1 eigenvectors of sigma_%s" % (k, k.lower()), cd.site(),
-                                 "U sigma_%s U^dagger = diag(-1, +1): the eigenvector rows are in the wrong order" % k.lower())
-                else:
-                    ck.violation("C04.R1", "%s: rows are the conjugated +1 / -1 eigenvectors of sigma_%s" % (k, k.lower()), cd.site(),
-                                 "U sigma_%s U^dagger = %s, expected diag(+1, -1): the matrix does not rotate into the %s basis" % (k.lower(), rot, k))
-            except ValueError:
-                ck.undecided("C04.R1", "%s algebra" % k, cd.site(), "entries mix different powers of sqrt(2)")
+        for p in returning(paths_of(prog, lambda it: it.call_function(VFunc(cd), [], {}, None)), "create_dict"):
+            d = p.value
+            keys = list(d.obj.items.keys()) if isinstance(d, VDict) and d.obj.items is not None else None
+            ck.check(keys is not None and set(keys) == {"X", "Y", "Z"}, "C04.R1", "default keys X, Y, Z", cd.site(), "default dictionary has keys %s" % keys)
+            mats = {}
+            for k in ("X", "Y", "Z"):
+                v = d.obj.items.get(k) if keys else None
+                M = matrix_of(v.term) if isinstance(v, VTens) and v.term is not None else None
+                ck.check(True if M is not None else None, "C04.R1", "%s: literal 2x2 complex matrix" % k, cd.site(), "the %s entry is not a literal (2,2,2) tensor over Q(sqrt 2): %r" % (k, getattr(v, "term", None)))
+                ck.check(isinstance(v, VTens) and v.shape == (2, 2, 2), "C04.R1", "%s: shape (2,2,2)" % k, cd.site(), "the %s entry has shape %s" % (k, getattr(v, "shape", None)))
+                mats[k] = M
+            if mats.get("Z") is not None:
+                ck.check(mats["Z"] == I2, "C04.R1", "Z is the identity", cd.site(), "the Z unitary is %s, expected the identity" % (mats["Z"],))
+            for k, S in (("X", SX), ("Y", SY)):
+                M = mats.get(k)
+                if M is None:
+                    continue
+                try:
+                    uni = mm(M, dag(M))
+                    ck.check(uni == I2, "C04.R1", "%s is unitary" % k, cd.site(), "%s %s^dagger = %s, expected the identity" % (k, k, uni))
+                    rot = mm(mm(M, S), dag(M))
+                    if rot == DIAG:
+                        ck.ok("C04.R1", "%s: rows are the conjugated +1 / -1 eigenvectors of sigma_%s" % (k, k.lower()), cd.site(), U_sigma_Udag=str(rot))
+                    elif rot == [[Q2(-1), ZERO], [ZERO, ONE]]:
+                        ck.violation("C04.R1", "%s: rows are the conjugated +1 / -1 eigenvectors of sigma_%s" % (k, k.lower()), cd.site(),
+                                     "U sigma_%s U^dagger = diag(-1, +1): the eigenvector rows are in the wrong order" % k.lower())
+                    else:
+                        ck.violation("C04.R1", "%s: rows are the conjugated +1 / -1 eigenvectors of sigma_%s" % (k, k.lower()), cd.site(),
+                                     "U sigma_%s U^dagger = %s, expected diag(+1, -1): the matrix does not rotate into the %s basis" % (k.lower(), rot, k))
+                except ValueError:
+                    ck.undecided("C04.R1", "%s algebra" % k, cd.site(), "entries mix different powers of sqrt(2)")
     with ck.guard("C04.R1", "create_dict(**user)", cd.site()):
         def thu(it):
             x = api.cx_t(it, "userX", (2, 2))
@@ -161,13 +161,13 @@ def run(ck):
                                                                            it.new_list([it.new_list([VConst(0.0), VConst(0.0)]), it.new_list([VConst(0.0), VConst(0.0)])])])}, None)
             return x, r
 
-        p = single(paths_of(prog, thu), "create_dict(user)")
-        x, r = p.value
-        items = r.obj.items
-        ck.check(set(items.keys()) == {"X", "Y", "Z", "H"}, "C04.R1", "user entries added", cd.site(), "keys with user entries: %s" % sorted(items.keys()))
-        ux = items.get("X")
-        ck.check(isinstance(ux, VTens) and ux.term == x.term, "C04.R1", "user entry overrides the default with the same key", cd.site(), "a user-supplied X does not replace the default X")
-        ck.check(isinstance(ux, VTens) and ux.obj is not x.obj, "C04.R1", "user tensor is copied", cd.site(), "the user's tensor is stored without copying")
+        for p in returning(paths_of(prog, thu), "create_dict(user)"):
+            x, r = p.value
+            items = r.obj.items
+            ck.check(set(items.keys()) == {"X", "Y", "Z", "H"}, "C04.R1", "user entries added", cd.site(), "keys with user entries: %s" % sorted(items.keys()))
+            ux = items.get("X")
+            ck.check(isinstance(ux, VTens) and ux.term == x.term, "C04.R1", "user entry overrides the default with the same key", cd.site(), "a user-supplied X does not replace the default X")
+            ck.check(isinstance(ux, VTens) and ux.obj is not x.obj, "C04.R1", "user tensor is copied", cd.site(), "the user's tensor is stored without copying")
     # ------------------------------------------------------------------ R2 row/column binding
     rrp = prog.func(U, "rotate_rho_probs")
     for which in ("model", "explicit"):
